@@ -14,15 +14,15 @@ import (
 )
 
 type hierObs struct {
-	Ev     string `json:"ev"`
-	Name   string `json:"name"`
-	Dim    int    `json:"dim"`
-	Cells  int    `json:"cells"`
-	N      int    `json:"n"`     // items of the hierarchical render of f
-	NFlat  int    `json:"nflat"` // items of the render of f/1024
-	Diff   int    `json:"diff"`  // size of the symmetric difference of the two multisets (exact floats)
-	Seq    int    `json:"seq"`
-	Param  string `json:"param"`
+	Ev    string `json:"ev"`
+	Name  string `json:"name"`
+	Dim   int    `json:"dim"`
+	Cells int    `json:"cells"`
+	N     int    `json:"n"`     // items of the hierarchical render of f
+	NFlat int    `json:"nflat"` // items of the render of f/1024
+	Diff  int    `json:"diff"`  // size of the symmetric difference of the two multisets (exact floats)
+	Seq   int    `json:"seq"`
+	Param string `json:"param"`
 }
 
 type scaled3 struct {
@@ -31,7 +31,7 @@ type scaled3 struct {
 }
 
 func (s scaled3) Evaluate(p v3.Vec) float64 { return s.s.Evaluate(p) / s.k }
-func (s scaled3) BoundingBox() sdf.Box3    { return s.s.BoundingBox() }
+func (s scaled3) BoundingBox() sdf.Box3     { return s.s.BoundingBox() }
 
 type scaled2 struct {
 	s sdf.SDF2
@@ -39,7 +39,7 @@ type scaled2 struct {
 }
 
 func (s scaled2) Evaluate(p v2.Vec) float64 { return s.s.Evaluate(p) / s.k }
-func (s scaled2) BoundingBox() sdf.Box2    { return s.s.BoundingBox() }
+func (s scaled2) BoundingBox() sdf.Box2     { return s.s.BoundingBox() }
 
 // ball3 is an exact Euclidean ball with a bounding box chosen by the harness (lattice alignment).
 type ball3 struct {
@@ -49,7 +49,7 @@ type ball3 struct {
 }
 
 func (b ball3) Evaluate(p v3.Vec) float64 { return p.Sub(b.c).Length() - b.r }
-func (b ball3) BoundingBox() sdf.Box3    { return b.bb }
+func (b ball3) BoundingBox() sdf.Box3     { return b.bb }
 
 type disc2 struct {
 	c  v2.Vec
@@ -58,7 +58,7 @@ type disc2 struct {
 }
 
 func (b disc2) Evaluate(p v2.Vec) float64 { return p.Sub(b.c).Length() - b.r }
-func (b disc2) BoundingBox() sdf.Box2    { return b.bb }
+func (b disc2) BoundingBox() sdf.Box2     { return b.bb }
 
 func triDiff(a, b []*sdf.Triangle3) int {
 	m := map[[9]float64]int{}
